@@ -64,3 +64,11 @@ package cache
 //@ func (*RepoCache).LocalConfig
 //@   trusted
 //@   modifies nothing
+
+// The goroutine of SubCache.MergeAll folds merge results into the cache. It must not crash whatever the
+// entity layer reports (C07): only results announced as new or updated carry an entity (element invariant of
+// the results channel, i.e. the contract of dag.MergeAll / identity.MergeAll).
+//@ func (*SubCache).MergeAll$1
+//@   props C07 C11
+//@   nopanic typeassert
+//@   recvinv results: (elem.Status == entity.MergeStatusNew || elem.Status == entity.MergeStatusUpdated) && elem.Err == nil ==> implements(elem.Entity, EntityT)
